@@ -411,6 +411,10 @@ pub fn run_history(cfg: &Cfg, hist: &[Op], judge_all: bool) -> Run {
         key.push(']');
     }
     key.push_str(&format!("|len{}|ll{:?}|t{:?}", q.shared_len(), q.local_lens(), pops.iter().map(|p| p % 61).collect::<Vec<_>>()));
+    // hidden structure: which per-priority containers exist in which queue, with which capacity
+    let mut structure: Vec<(usize, Option<i64>, usize)> = shim::with(|x| x.containers.iter().map(|c| (queue_of(cfg, c), c.key, c.cap)).collect());
+    structure.sort_unstable();
+    key.push_str(&format!("|c{structure:?}"));
     if let Some(v) = viol {
         q.dispose(true);
         return Run { key, viol: Some(v), hang: false, obs, witnesses };
@@ -501,6 +505,9 @@ pub fn bfs(cfg: &Cfg, depth: usize, deadline: Instant, rep: &mut Report, scen: &
             return ex;
         }
         let run = run_history(cfg, &h, false);
+        if std::env::var_os("QXTRACE").is_some() {
+            eprintln!("{} -> key {} viol {:?} fresh {}", hist_json(&h), run.key, run.viol.as_ref().map(|v| &v.clause), !seen.contains(&run.key));
+        }
         ex.execs += 1;
         if !h.is_empty() {
             ex.transitions += 1;
